@@ -56,7 +56,16 @@ def sites(tree):
         elif isinstance(node, ast.ClassDef):
             fn = (fn + "." if fn else "") + node.name
         here = stack + [node]
-        loc = (getattr(node, "lineno", 0), fn)
+        stmt = next((x for x in reversed(here) if isinstance(x, ast.stmt)), None)
+        if isinstance(stmt, (ast.If, ast.While)):
+            stxt = ("if " if isinstance(stmt, ast.If) else "while ") + ast.unparse(stmt.test)
+        elif isinstance(stmt, (ast.For, ast.AsyncFor)):
+            stxt = "for " + ast.unparse(stmt.target) + " in " + ast.unparse(stmt.iter)
+        elif isinstance(stmt, (ast.FunctionDef, ast.AsyncFunctionDef, ast.ClassDef, ast.Try, ast.With, ast.AsyncWith)) or stmt is None:
+            stxt = type(stmt).__name__
+        else:
+            stxt = ast.unparse(stmt)
+        loc = (getattr(node, "lineno", 0), fn, stxt[:110])
         if not _in_log_call(here):
             if isinstance(node, ast.Compare):
                 for i, op in enumerate(node.ops):
@@ -176,8 +185,8 @@ def gen():
     for f in FILES:
         src = open(os.path.join(REPO, f)).read()
         tree = ast.parse(src)
-        for path, op, (line, fn), desc in sites(tree):
-            muts.append({"id": f"S{len(muts):05d}", "file": f, "path": path, "op": op, "line": line, "fn": fn, "desc": desc})
+        for path, op, (line, fn, stxt), desc in sites(tree):
+            muts.append({"id": f"S{len(muts):05d}", "file": f, "path": path, "op": op, "line": line, "fn": fn, "desc": desc, "stmt": stxt})
     head = subprocess.run(f"git -C {REPO} rev-parse HEAD", shell=True, capture_output=True, text=True).stdout.strip()
     json.dump({"head": head, "mutants": muts}, open(os.path.join(OUT, "mutants.json"), "w"), indent=0)
     print(len(muts), "mutants")
@@ -305,12 +314,39 @@ def table():
         fh.write("| id | where | mutation | checks | triage |\n|---|---|---|---|---|\n")
         for m, verdict, hits in rows:
             hs = "; ".join(h[:90] for h in hits[:3]).replace("|", "\\|")
-            fh.write(f"| {m['id']} | {m['file'].replace('asyncfix/', '')}:{m['line']} {m['fn']} | {m['desc'].replace('|', chr(92) + '|')} | {verdict}{': ' + hs if hs else ''} | {tri.get(m['id'], '')} |\n")
+            fh.write(f"| {m['id']} | {m['file'].replace('asyncfix/', '')}:{m['line']} {m['fn']} | {(m['desc'] + (' @ `' + m.get('stmt', '') + '`' if m['op'] in ('boolflip', 'int+1', 'int-1') else '')).replace('|', chr(92) + '|')} | {verdict}{': ' + hs if hs else ''} | {tri.get(m['id'], '')} |\n")
     print(dict(c))
+
+
+def try_(ids, pids):
+    """materialise each mutant in a scratch copy and run the given checks (all if none given) - no test suite"""
+    data = {m["id"]: m for m in json.load(open(os.path.join(OUT, "mutants.json")))["mutants"]}
+    wd = f"/tmp/sweep-try-{os.getpid()}"
+    shutil.copytree(REPO, wd, ignore=shutil.ignore_patterns(".git", "__pycache__", "docs", "examples", "*.egg-info"))
+    pids = pids or [c["property_id"] for c in json.load(open(os.path.join(VERIF, "MANIFEST.json")))["checks"]]
+    try:
+        for mid in ids:
+            m = data[mid]
+            orig = open(os.path.join(REPO, m["file"])).read()
+            open(os.path.join(wd, m["file"]), "w").write(mutate(ast.parse(orig), m["path"], m["op"]))
+            outs = []
+            for pid in pids:
+                p = subprocess.run(f"./check {pid} --no-evidence --repo {wd}", shell=True, cwd=VERIF, capture_output=True, text=True, env={**os.environ, "VERIF_QUIET": "1"})
+                if p.returncode:
+                    lines = [l for l in p.stdout.splitlines() if l.startswith(("VIOLATION", "ANALYSIS-ERROR")) or "FAIL" in l]
+                    outs.append(f"{pid} rc={p.returncode} " + " | ".join(x[:160] for x in lines[:3]))
+            print(mid, m["file"], m["line"], m["op"], m["desc"], "@", m.get("stmt", ""), "->", outs or "silent", flush=True)
+            open(os.path.join(wd, m["file"]), "w").write(orig)
+    finally:
+        shutil.rmtree(wd, ignore_errors=True)
 
 
 if __name__ == "__main__":
     cmd = sys.argv[1]
+    if cmd == "try":
+        ids = [a for a in sys.argv[2:] if a.startswith("S")]
+        try_(ids, [a for a in sys.argv[2:] if a.startswith("C")])
+        sys.exit(0)
     if cmd == "gen":
         gen()
     elif cmd == "run":
